@@ -14,7 +14,7 @@ set members (C03).  Theorems hold for every `E` satisfying the stated laws
 the real code), every fuel, and values / types of any depth.  Capsule types have
 no conversion callbacks in the model.
 
-"Placeholder-free" theorems (`…_partial`) assume `RegularPair v want`: a
+"Placeholder-free" theorems (`…_partial`) assume `RegularPair E v want`: a
 well-formed value, a well-formed target without DynamicPseudoType, and a
 *regular* pair of types — `Convert.regular`, the compatibility that
 `dynamicReplace` assumes of its arguments (see the counterexamples for what
@@ -38,21 +38,21 @@ def ResultConforms : Prop :=
   ∀ (E : Env) (fuel : Nat) (v r : Value) (want : Ty), UnifyLaws E → Value.wt v = true → want.wf = true →
     convert E fuel v want = .ok r → conformsTo want r = true
 
-/-- For a placeholder-free target and a regular pair the result has exactly the
+/-- For a placeholder-free target and a regular Env.simple pair the result has exactly the
 requested type without its optional-attribute annotations … -/
 theorem result_type_partial (E : Env) (hU : UnifyLaws E) (fuel : Nat) (v r : Value) (want : Ty)
-    (hp : RegularPair v want) (h : convert E fuel v want = .ok r) : r.ty = want.stripOpt :=
+    (hp : RegularPair E v want) (h : convert E fuel v want = .ok r) : r.ty = want.stripOpt :=
   convert_ty hU hp h
 
 /-- … hence conforms to it (clause "returns a value whose type conforms to the
 requested type"). -/
 theorem result_conforms_partial (E : Env) (hU : UnifyLaws E) (fuel : Nat) (v r : Value) (want : Ty)
-    (hp : RegularPair v want) (h : convert E fuel v want = .ok r) : conformsTo want r = true := by
+    (hp : RegularPair E v want) (h : convert E fuel v want = .ok r) : conformsTo want r = true := by
   simp [conformsTo, convert_ty hU hp h, conform_stripOpt want hp.wfT hp.noDyn]
 
 /-- The same for a conversion obtained from `GetConversion` / `GetConversionUnsafe`. -/
 theorem result_conforms_getConversion_partial (E : Env) (hU : UnifyLaws E) (fuel : Nat) (uns : Bool)
-    (v r : Value) (want : Ty) (p : Plan) (hp : RegularPair v want)
+    (v r : Value) (want : Ty) (p : Plan) (hp : RegularPair E v want)
     (hg : getConv E v.ty want uns = some p) (h : apply E fuel p v = .ok r) : conformsTo want r = true := by
   simp [conformsTo, apply_ty hU hp hg h, conform_stripOpt want hp.wfT hp.noDyn]
 
@@ -79,35 +79,18 @@ theorem resultConforms_false : ¬ ResultConforms := by
 
 /-! ## No optional-attribute annotation in the result type -/
 
-/-- Full statement: the result type carries no optional-attribute annotation
-anywhere.  FALSE of the code — see `result_no_optional_counterexample`. -/
-def ResultNoOptional : Prop :=
-  ∀ (E : Env) (fuel : Nat) (v r : Value) (want : Ty), UnifyLaws E → Value.wt v = true → want.wf = true →
-    convert E fuel v want = .ok r → noOptional r = true
-
+/-- The result type carries no optional-attribute annotation anywhere (clause "free of
+optional-attribute annotations"), for placeholder-free targets. -/
 theorem result_no_optional_partial (E : Env) (hU : UnifyLaws E) (fuel : Nat) (v r : Value) (want : Ty)
-    (hp : RegularPair v want) (h : convert E fuel v want = .ok r) : noOptional r = true := by
+    (hp : RegularPair E v want) (h : convert E fuel v want = .ok r) : noOptional r = true := by
   simp [noOptional, convert_ty hU hp h, stripOpt_noOpt]
 
-/-- the witness: an empty map converted to an object type with an optional
-attribute whose own type has an optional attribute — conversionMapToObject fills
-the missing attribute with a null of the attribute type as written -/
-def optWitnessT : Ty := .object ["a"] [.object ["b"] [.string] [true]] [true]
-
-theorem result_no_optional_counterexample :
-    convert Env.simple 4 ⟨.map .string, .smap [] []⟩ optWitnessT =
-      .ok ⟨.object ["a"] [.object ["b"] [.string] [true]] [false], .smap ["a"] [.null]⟩ ∧
-    hasOpt (.object ["a"] [.object ["b"] [.string] [true]] [false]) = true := by
-  constructor
-  · rfl
-  · decide
-
-theorem resultNoOptional_false : ¬ ResultNoOptional := by
-  intro h
-  have := h Env.simple 4 ⟨.map .string, .smap [] []⟩ _ optWitnessT unifyLaws_simple (by decide) (by decide)
-    result_no_optional_counterexample.1
-  revert this
-  decide
+/-- regression witness of a repaired defect (conversionMapToObject filled a missing
+optional attribute with a null of the attribute type as written, annotations
+included): the missing attribute's type is now erased too -/
+example : convert Env.simple 4 ⟨.map .string, .smap [] []⟩
+      (.object ["a"] [.object ["b"] [.string] [true]] [true]) =
+    .ok ⟨.object ["a"] [.object ["b"] [.string] [false]] [false], .smap ["a"] [.null]⟩ := rfl
 
 /-! ## Placeholders the input already resolved do not come back -/
 
@@ -119,7 +102,7 @@ def ResultResolvesPlaceholders : Prop :=
     convert E fuel v want = .ok r → resolvedIn v.ty r.ty = true
 
 theorem result_resolves_placeholders_partial (E : Env) (hU : UnifyLaws E) (fuel : Nat) (v r : Value)
-    (want : Ty) (hp : RegularPair v want) (h : convert E fuel v want = .ok r) :
+    (want : Ty) (hp : RegularPair E v want) (h : convert E fuel v want = .ok r) :
     resolvedIn v.ty r.ty = true := by
   apply resolvedIn_noDyn
   rw [convert_ty hU hp h, stripOpt_hasDyn]
@@ -160,15 +143,15 @@ theorem identity_own_type (E : Env) (fuel : Nat) (v : Value) (hw : Value.wt v = 
 
 /-- Converting the result again gives the same result. -/
 theorem idempotent_partial (E : Env) (hU : UnifyLaws E) (fuel fuel' : Nat) (v r : Value) (want : Ty)
-    (hp : RegularPair v want) (h : convert E fuel v want = .ok r) : convert E fuel' r want = .ok r :=
+    (hp : RegularPair E v want) (h : convert E fuel v want = .ok r) : convert E fuel' r want = .ok r :=
   convert_idempotent hU hp h
 
 /-! ## Unknown and null inputs -/
 
 /-- A null input converts to the null of the target type (placeholder-free target,
-regular pair; through `Convert` or any conversion `GetConversion*` returns). -/
+regular Env.simple pair; through `Convert` or any conversion `GetConversion*` returns). -/
 theorem null_sound_partial (E : Env) (hU : UnifyLaws E) (fuel : Nat) (uns : Bool) (v : Value) (want : Ty)
-    (p : Plan) (hp : RegularPair v want) (hg : getConv E v.ty want uns = some p)
+    (p : Plan) (hp : RegularPair E v want) (hg : getConv E v.ty want uns = some p)
     (hm : v.isMarked = false) (hk : v.isKnown = true) (hn : v.isNull = true) :
     apply E (fuel + 1) p v = .ok (Value.null want.stripOpt) :=
   apply_null_exact hU fuel hp hg hm hk hn
@@ -185,7 +168,7 @@ carrying the refinement `rf`, the refinement is carried only where still true:
 * for a tuple / object converted to a list / map the bounds admit the number of
   elements / attributes; for a tuple converted to a set, between min(1, n) and n. -/
 theorem unknown_sound_partial (E : Env) (hU : UnifyLaws E) (fuel : Nat) (uns : Bool) (v r : Value)
-    (want : Ty) (p : Plan) (hp : RegularPair v want) (hg : getConv E v.ty want uns = some p)
+    (want : Ty) (p : Plan) (hp : RegularPair E v want) (hg : getConv E v.ty want uns = some p)
     (hm : v.isMarked = false) (hk : v.isKnown = false) (h : apply E (fuel + 1) p v = .ok r) :
     r.ty = want.stripOpt ∧
     ∃ rng, Refine.range v = .ok rng ∧ rng.ty = v.ty ∧ ∀ rf, r.v = .unk rf →
@@ -237,7 +220,7 @@ tuple type that the map's element type cannot convert to — `dynamicReplace` as
 non-tuple type for its tuple elements -/
 theorem no_panic_counterexample :
     (convert Env.simple 4 ⟨.map .string, .null⟩ (.object ["a"] [.tuple [.string]] [true])).isPanic = true ∧
-    regular (.map .string) (.object ["a"] [.tuple [.string]] [true]) = false := by
+    regular Env.simple (.map .string) (.object ["a"] [.tuple [.string]] [true]) = false := by
   constructor <;> decide
 
 theorem noPanic_false : ¬ NoPanic := by
@@ -247,13 +230,13 @@ theorem noPanic_false : ¬ NoPanic := by
   rw [no_panic_counterexample.1] at this
   exact absurd this (by decide)
 
-/-- For a regular pair and a value without unknown parts (nulls and marks are
+/-- For a regular Env.simple pair and a value without unknown parts (nulls and marks are
 allowed at any depth) `Convert` returns a value, an error, or runs out of model
 fuel — never a panic; for every environment satisfying the laws and every fuel.
 (Unknown parts go through the refinement builder, whose freedom from panics on the
 bounds it is handed here is not proved; the harness checks it on every run.) -/
 theorem no_panic_partial (E : Env) (hU : UnifyLaws E) (hS : SetLaws E) (fuel : Nat) (v : Value) (want : Ty)
-    (hp : RegularPair v want) (hk : Payload.whollyKnown v.v = true) :
+    (hp : RegularPair E v want) (hk : Payload.whollyKnown v.v = true) :
     (convert E fuel v want).isPanic = false := by
   have h := (convert_NB hU hS fuel hp hk).1
   cases hr : convert E fuel v want <;> simp [Res.isPanic]
@@ -261,7 +244,7 @@ theorem no_panic_partial (E : Env) (hU : UnifyLaws E) (hS : SetLaws E) (fuel : N
 
 /-- … and neither does any conversion returned by `GetConversion` / `GetConversionUnsafe`. -/
 theorem no_panic_getConversion_partial (E : Env) (hU : UnifyLaws E) (hS : SetLaws E) (fuel : Nat)
-    (uns : Bool) (v : Value) (want : Ty) (p : Plan) (hp : RegularPair v want)
+    (uns : Bool) (v : Value) (want : Ty) (p : Plan) (hp : RegularPair E v want)
     (hk : Payload.whollyKnown v.v = true) (hg : getConv E v.ty want uns = some p) :
     (apply E fuel p v).isPanic = false := by
   have h := (apply_NB hU hS fuel hp hk hg).1
@@ -275,7 +258,7 @@ never reports an error and never panics on a value of the source type without
 unknown parts: the outcome is a value of the target type (or the model's fuel ran
 out).  Errors come only from conversions built in unsafe mode. -/
 theorem safe_total_partial (E : Env) (hU : UnifyLaws E) (hS : SetLaws E) (fuel : Nat) (v : Value) (want : Ty)
-    (p : Plan) (hp : RegularPair v want) (hk : Payload.whollyKnown v.v = true)
+    (p : Plan) (hp : RegularPair E v want) (hk : Payload.whollyKnown v.v = true)
     (hg : getConversion E v.ty want = some p) :
     (∃ r, apply E fuel p v = .ok r ∧ r.ty = want.stripOpt) ∨ apply E fuel p v = .unmodelled := by
   have h := apply_NB hU hS fuel hp hk hg
@@ -295,7 +278,7 @@ example : (apply Env.simple 8 (.wrap (.list .string) (.collToList .string (.wrap
 offered by `GetConversionUnsafe`, and the two give the same outcome on every value
 of the source type (known, unknown, null or marked, any depth), for every fuel. -/
 theorem safe_sub_unsafe_partial (E : Env) (hU : UnifyLaws E) (v : Value) (want : Ty) (p : Plan)
-    (hp : RegularPair v want) (hg : getConversion E v.ty want = some p) :
+    (hp : RegularPair E v want) (hg : getConversion E v.ty want = some p) :
     ∃ p', getConversionUnsafe E v.ty want = some p' ∧ ∀ fuel, apply E fuel p' v = apply E fuel p v := by
   obtain ⟨c, hc, rfl⟩ := Option.map_eq_some_iff.mp hg
   refine ⟨.wrap want (up c), ?_, fun fuel => recEq_apply hU fuel v.ty want c v hc hp.conds⟩
@@ -421,7 +404,7 @@ def sampleV : Value :=
 def sampleT : Ty :=
   .object ["a", "c", "d"] [.set .string, .list .string, .map .number] [false, false, true]
 
-example : RegularPair sampleV sampleT := ⟨by decide, by decide, by decide, by decide⟩
+example : RegularPair Env.simple sampleV sampleT := ⟨by decide, by decide, by decide, by decide⟩
 example : UnifyLaws Env.simple := unifyLaws_simple
 example : (convert Env.simple 8 sampleV sampleT).isOk = true := by decide
 
